@@ -7,7 +7,7 @@
 From Coq Require Import List NArith ZArith.
 From GM Require Import Base.Lts Codec.Packet Session.Store Client.Future Client.Client Client.ClientSpec
   Client.ClientWitness Client.ClientInvSbs Client.ClientInvRx Client.ClientKept Client.ClientTruth Client.ClientTotal
-  Client.TraceScan Client.ClientScanProofs Client.ClientHist Client.Tracker Client.ClientResend Client.ClientScan3.
+  Client.TraceScan Client.ClientScanProofs Client.ClientHist Client.Tracker Client.ClientPre Client.ClientResend Client.ClientScan3.
 Import ListNotations.
 Open Scope N_scope.
 
@@ -23,11 +23,20 @@ Theorem C09_kept_until_acked : C09_kept_until_acked_statement.
 Proof. exact kept_until_acked. Qed.
 Print Assumptions C09_kept_until_acked.
 
-(* after CONNACK accepted the processor retransmits the whole outgoing store in store order, DUP on
-   PUBLISH, PUBREL as such, and does nothing else in between *)
+(* an accepted CONNACK only moves the state to Connacked; the processor then lists the whole outgoing store
+   and retransmits it in store order, DUP on PUBLISH, PUBREL as such, doing nothing else in between; only
+   after the last of them the state becomes Connected and the connect future completes *)
 Theorem C09_resend_on_connect : C09_resend_on_connect_statement.
 Proof. exact resend_on_connect. Qed.
 Print Assumptions C09_resend_on_connect.
+
+(* resend_before_new: while the listing or a retransmission is still due the client is not Connected; whoever
+   moves, nothing is written to the connection but the due retransmission (or the pinger's PINGREQ), nothing is
+   saved into the outgoing store, and a Publish / Subscribe / Unsubscribe / Disconnect call that gets the mutex
+   is refused — no new request overtakes a retransmission, none can be listed (and sent) a second time *)
+Theorem C09_resend_before_new : C09_resend_before_new_statement.
+Proof. exact resend_before_new. Qed.
+Print Assumptions C09_resend_before_new.
 
 (* history form: for every accepted trace and every future that is Completed at its end, the log of
    received packets contains, after the point at which the future was stored (the packet being processed
@@ -40,7 +49,8 @@ Proof. exact future_truthful_history. Qed.
 Print Assumptions C09_future_truthful.
 
 (* a future turns Completed only while the processor handles an acknowledgement (the last packet
-   received) carrying the id it is stored under / a CONNACK accepted in state connecting / in the QoS 0
+   received) carrying the id it is stored under / at the end of processConnack for an accepted CONNACK (still the last
+   packet received), after the listing and the last re-send or when one of them failed / in the QoS 0
    publish call after Send returned nil *)
 Theorem C09_future_truthful_partial : C09_future_truthful_partial_statement.
 Proof. exact future_truthful_partial. Qed.
@@ -69,14 +79,23 @@ Theorem C09_scan_pubrec_sound : forall es s, run step init es = Some s ->
 Proof. exact scan_pubrec_accepted. Qed.
 Print Assumptions C09_scan_pubrec_sound.
 
-(* retransmission scanner: once AllPackets(Outgoing) has listed the stored packets, the processor's Sends
-   are exactly these, in listing order, DUP set on PUBLISH, PUBREL as it is, nothing else of the processor
-   in between; a failing Send ends the obligation.  What the scanner still expects at the end of an accepted
-   trace is what the model's processor still has to resend (nothing once it is back in Receive). *)
+(* retransmission scanner (clauses resend_on_connect and resend_before_new on observed traces): after an
+   accepted CONNACK as the first packet the processor's next observable move is the listing; once
+   AllPackets(Outgoing) has listed the stored packets, the processor's Sends are exactly these, in listing
+   order, DUP set on PUBLISH, PUBREL as it is, nothing else of the processor in between; a failing Send ends
+   the obligation; and from that CONNACK until the last listed packet has been handed to the connection no
+   API request (PUBLISH dup=0, SUBSCRIBE, UNSUBSCRIBE, DISCONNECT) is sent and nothing but a PUBREL is saved
+   into the outgoing store.  Every accepted trace passes; what the scanner still expects at the end describes
+   the final state (ClientResend.rr): RDue l only if the processor still has exactly l to re-send *)
 Theorem C09_scan_resend_sound : forall es s, run step init es = Some s ->
-  scan_resend RNone es = Some (rexp_of (k_ppc (k s))).
+  exists x, scan_resend RInit es = Some x /\ rr x s.
 Proof. exact scan_resend_accepted. Qed.
 Print Assumptions C09_scan_resend_sound.
+
+Theorem C09_scan_resend_due : forall es s l, run step init es = Some s ->
+  scan_resend RInit es = Some (RDue l) -> exists sp, k_ppc (k s) = PResend sp l.
+Proof. exact scan_resend_due. Qed.
+Print Assumptions C09_scan_resend_due.
 
 (* kept-until-acknowledged scanner: DeletePacket(Outgoing, id) only as the processor's first move after an
    acknowledgement carrying id, SavePacket(Outgoing, PUBREL id) only as its first move after PUBREC id *)
